@@ -469,6 +469,8 @@ def evaluate__datetime_type_and_function(self: XPathConstructor, context: ta.Con
 
 @constructor('untypedAtomic')
 def cast__untyped_atomic(self: XPathConstructor, value: ta.AtomicType) -> UntypedAtomic:
+    if not isinstance(value, (str, UntypedAtomic)):
+        value = self.string_value(value)  # the XPath string form, not Python's str()
     return UntypedAtomic(value)
 
 
